@@ -1,4 +1,5 @@
 use std::io::{Error, ErrorKind};
+use std::ops::Deref;
 use std::sync::Arc;
 
 use log::{debug, error, info, trace, warn};
@@ -184,6 +185,8 @@ impl Network {
         wallet_lock: Arc<RwLock<Wallet>>,
         config_lock: Arc<RwLock<dyn Configuration + Send + Sync>>,
     ) {
+        // lock order : configs before peers
+        let configs = config_lock.read().await;
         let mut peers = self.peer_lock.write().await;
 
         let peer = peers.index_to_peers.get_mut(&peer_index);
@@ -211,7 +214,7 @@ impl Network {
             challenge,
             self.io_interface.as_ref(),
             wallet_lock.clone(),
-            config_lock,
+            configs.deref(),
         )
         .await
         .unwrap();
@@ -224,6 +227,8 @@ impl Network {
         blockchain_lock: Arc<RwLock<Blockchain>>,
         configs_lock: Arc<RwLock<dyn Configuration + Send + Sync>>,
     ) {
+        // lock order : configs before peers
+        let configs = configs_lock.read().await;
         let mut peers = self.peer_lock.write().await;
         let public_key;
         {
@@ -250,7 +255,7 @@ impl Network {
                     response,
                     self.io_interface.as_ref(),
                     wallet_lock.clone(),
-                    configs_lock.clone(),
+                    configs.deref(),
                     current_time,
                 )
                 .await;
@@ -298,6 +303,9 @@ impl Network {
 
         self.io_interface
             .send_interface_event(InterfaceEvent::PeerConnected(peer_index));
+        // the sync request locks configs and the blockchain, which come before peers in the lock order
+        drop(peers);
+        drop(configs);
         // start block syncing here
         self.request_blockchain_from_peer(peer_index, blockchain_lock.clone())
             .await;
